@@ -255,14 +255,21 @@ def build(decl, extra_options=None):
         return build_function(decl, opts)
     basecls = utype.Schema if decl["base"] == "Schema" else utype.DataClass
     name = "D%d" % next(_uid)
-    ns = {"__annotations__": {}, "__module__": "vmon_generated", "__qualname__": name, "__options__": opts}
-    for f in decl["fields"]:
-        ns["__annotations__"][f["name"]] = type_info(f["type"])[0]
-        if _needs_field_obj(f):
-            ns[f["name"]] = _field_obj(f)
-        elif f["default"] is not NODEF:
-            ns[f["name"]] = f["default"]
-    cls = type(basecls)(name, (basecls,), ns)
+    def namespace(fields, qual):
+        ns = {"__annotations__": {}, "__module__": "vmon_generated", "__qualname__": qual, "__options__": opts}
+        for f in fields:
+            ns["__annotations__"][f["name"]] = type_info(f["type"])[0]
+            if _needs_field_obj(f):
+                ns[f["name"]] = _field_obj(f)
+            elif f["default"] is not NODEF:
+                ns[f["name"]] = f["default"]
+        return ns
+
+    bases = (basecls,)
+    if decl.get("parent"):
+        # inheritance: a base class declares (some of) the fields differently; the subclass re-declares them
+        bases = (type(basecls)(name + "Base", (basecls,), namespace(decl["parent"], name + "Base")),)
+    cls = type(basecls)(name, bases, namespace(decl["fields"], name))
     return cls
 
 
@@ -385,7 +392,10 @@ def describe(decl):
                 parts.append(f"{k}={f[k]}")
         return " ".join(parts)
 
-    return {"base": decl["base"], "options": decl["options"], "fields": [fd(f) for f in decl["fields"]]}
+    d = {"base": decl["base"], "options": decl["options"], "fields": [fd(f) for f in decl["fields"]]}
+    if decl.get("parent"):
+        d["inherits_from_a_base_declaring"] = [fd(f) for f in decl["parent"]]
+    return d
 
 
 def shape(decl):
